@@ -11,6 +11,16 @@ NOTE = ("Trusted: CrossHair 0.0.110 + z3, the overlay venv, the environment stub
         "isinstance shim), the harness oracles under /verif/vf. Grammars are a fixed corpus (classes cannot be symbolic); all bounds are in evidence.assumptions.")
 
 CLAIMED = {
+    "C05": dict(
+        text="For every corpus hierarchy (abstract layers, @abstract, non-dataclass productions, unreachable classes, base / list / annotated / union / "
+             "tuple fields, self, mutual and through-container recursion) the extracted grammar's productions, per-symbol minimum depths, recursive set "
+             "and usable sub-grammar are compared with an independent least-fixpoint analysis of the class declarations; the inner quantifiers are "
+             "discharged by the solver on the real create_node driven by a decider that may pick ANY alternative: every derivation up to depth min+1 "
+             "(thorough min+2) is at least as deep as the reported minimum, a derivation of exactly the reported minimum exists (witness replayed), every "
+             "symbol reported recursive has a derivation that expands it again (witness) and the others have none up to depth 3-4. Bounded by the corpus "
+             "and those depths; default counting mode.",
+        design_ref="DESIGN.md section 4 (C05)",
+    ),
     "C19": dict(
         text="Engine B: the numeric part of the current source of Grammar.update_weights is interpreted into z3 Real terms with every production weight "
              "a symbolic real >= 0 (each rule with positive total) for rule structures of 1-4 productions, two rules and the nested structure of the "
